@@ -206,7 +206,7 @@ def run(chk):
     r2 = chk.rule("R04.2", "predict gate: DisqualifiedModelError raised iff dq and not ign (other guards satisfied); override honoured", 4)
     r3 = chk.rule("R04.3", "companion guards: unfitted / foreign type / timezone mismatch never reach _predict; isinstance tuple is the family's data classes", 4)
     r4 = chk.rule("R04.4", "census: the two exception classes are raised only at the gates; no try/except around a gate can swallow them", 6)
-    r5 = chk.rule("R04.5", "poor-fit disqualification: every path from the fitting call to the return passes the guarded append to self.disqualification", 2)
+    r5 = chk.rule("R04.5", "poor-fit disqualification: every path from the fitting call to the return passes the guarded append to self.disqualification; the gate has the published truth table (undefined metric never in the model's favour)", 5)
     r6 = chk.rule("R04.6", "persistence: serialised `disqualification` is sourced from self.disqualification at/after its last mutation in fit, and read back into self.disqualification as warning objects", 4)
 
     dse = exc_class(chk, "DataSufficiencyError")
@@ -351,6 +351,10 @@ def run(chk):
             # and it happens after the work
             r5.require(all(cfg.paths_avoiding(id(w), id(ap), set()) for w in info["works"]), f"{fi.key}|poor-fit-after-work", fi.where(ap),
                        f"{fi.key}: the poor-fit append is not downstream of the fitting call")
+
+    # the gate expressions themselves (same function as C16/R16.3): an undefined metric must not open the gate
+    from rules.c16 import check_poor_fit_gates
+    check_poor_fit_gates(chk, r5)
 
     # ---------------- R04.6 persistence and snapshot ordering
     _persistence(chk, r6)
